@@ -110,3 +110,12 @@ Proof.
   intros f n H. apply Forall_forall. intros x Hx. apply in_map_iff in Hx. destruct Hx as [i [<- Hi]].
   apply in_seq in Hi. apply H; lia.
 Qed.
+
+Lemma veq_pointwise : forall v w n, length v = n -> length w = n ->
+  (forall s, (s < n)%nat -> nthq v s == nthq w s) -> veq v w.
+Proof.
+  induction v as [|x v IH]; intros [|y w] n Hv Hw H; cbn in Hv, Hw; subst; try discriminate; constructor.
+  - apply (H 0%nat). lia.
+  - apply (IH w (length v)); [reflexivity| lia|]. intros s Hs. apply (H (S s)). lia.
+Qed.
+
